@@ -41,7 +41,8 @@ func runC18(c *Ctx) {
 	}
 	tabs := map[string]*eng.SwitchTable{}
 	for _, n := range []string{"commentStyle", "SingleLineCommentStart", "MultilineCommentStart", "MultilineCommentEnd"} {
-		t, err := eng.ReadSwitchTable(lp, n)
+		spec := "(Language)." + n
+		t, err := eng.ReadSwitchTable(lp, n, p.FuncDecl(p.Func(langPkg, spec)))
 		if err != nil {
 			c.R.Undecided("R18.1", "language table "+n, langPkg, "cannot read the table: "+err.Error())
 			return
